@@ -113,4 +113,28 @@ def run(tier, replay):
         shutil.rmtree(scratch, ignore_errors=True)
 
 
-CLAIMED = False
+CLAIMED = True
+MANIFEST = dict(
+    level="model_checking",
+    engine="seqx",
+    technique="explicit-state exploration of the real implementation under a virtual clock (testing/synctest): every history of a 15-operation "
+              "alphabet (clock to end+D-1ns / end+D / end+D+1ns, service interval, retention run with and without concurrent writers, ALTER "
+              "duration, in-window / edge / out-of-window writes, catalogue-only groups) up to the bound is executed on a fresh real engine + "
+              "real catalogue + real retention service, with no-op pruning; a reference model of 'expired' (end + duration in force < now, "
+              "strict; 0 = never) decides every transition; plus a decision table of Engine.ExpiredShards over durations x clock positions",
+    text="The real retention service (services/retention handle()) is wired to a real storage engine with real shards on disk and a real "
+         "catalogue (meta.Data) inside a virtual-clock bubble. From 6 roots (initial duration G / 2G / unlimited x first shard open / not "
+         "loaded) every sequence of up to 3 (quick) or 4 (thorough, plus 5 over a 9-operation core alphabet) operations followed by a "
+         "retention run is executed; after every step the model checks: nothing of a shard group is removed unless its end + the duration "
+         "in force at that run is strictly before the run's clock reading (so: never under duration 0, not at the exact expiry instant, "
+         "not under a duration that an earlier ALTER replaced); every acknowledged point of every group that is not expired is returned by "
+         "the shard's cursor, including points written concurrently with the run; a group expired at two consecutive runs is gone from "
+         "catalogue (pruned), engine and both storage directories. An expiry table checks ExpiredShards for durations {0, 1ns, G/2, G, 2G, "
+         "3G} at end+d-1ns / end+d / end+d+1ns for an open and for a not-loaded shard. Exhaustive within the bounds; no violation on the "
+         "unchanged tree.",
+    note="Trusts: Go runtime and testing/synctest (virtual time), the 60-line MetaClient adapter (applies commands to meta.Data like ts-meta's "
+         "store, no raft/RPC), the harness's restatement of Storage.Write, the reference model. Three retention-unrelated tick periods are "
+         "lengthened and the compaction worker is re-created inside the bubble (overlay, from the current tree). Not covered: more than one "
+         "node/partition, tiering, down-sampling, per-measurement TTL, logkeeper/shared storage, failures of DeleteShard, the coordinator's "
+         "up-front WritePointOutOfRP test (reads lib/fasttime, outside the virtual clock), histories beyond the bound.",
+)
